@@ -342,7 +342,7 @@ CHECKS = {
         'outstanding; no background step raises; after completing all steps '
         'the machine rests in running or gitting; each update performs '
         'exactly one reload/refresh. Part bounded is exhaustive over all '
-        'words of length <= 3 (quick) / 5 (thorough) of a 9-letter alphabet.',
+        'words of length <= 3 (quick) / 5 (thorough) of a 10-letter alphabet.',
         'step callbacks serialised (no OS-thread races); GnuPG/GUI/log '
         'server/git/module reload stubbed.',
     ),
@@ -398,6 +398,49 @@ CHECKS = {
     ),
 }
 
+# parts added after the first build (appended to the level text)
+EXTRA = {
+    'C01': ' Part timers: the same with timer events of the generated '
+           'engines coming due on a harness clock (schedule.periodics / defer).',
+    'C02': ' Part timers: the law with timer events as a further source of '
+           'justified runs.',
+    'C03': ' A success report must also leave every dependent that declares '
+           'one of its new values pending (propagation); part timers adds '
+           'timer events.',
+    'C04': ' Part timers: timer events (incl. with no target known); part '
+           'faults: db.next() fails once during a dispatch and the farm must '
+           'recover; part waiters: the real poll loops of the queue-empty / '
+           'nothing-executing / crew-idle waiters run on single-stepped '
+           'threads started mid-history and must return at quiescence.',
+    'C05': ' Part cluster: the replies come from real workers '
+           '(worker.cluster.execute -> Context.run -> Task/Analysis/Regress.do '
+           'on a real shelve store; the algorithm stores, raises, or raises '
+           'NoValidOutputDataError).',
+    'C06': ' Loaded values are scribbled on by the harness (a caller may '
+           'refine what it was given in place); no later load may see that.',
+    'C08': ' A registration during which one catalogue write fails (disk '
+           'full) and is retried must leave the tables consistent.',
+    'C10': ' Further events: guarded (archiving/loading trigger while the '
+           'reload step holds the transitioning guard), work (a real '
+           'execution that stores metrics, so introspection has data and the '
+           'resources diary fills), part cycles (2-4 complete update cycles).',
+    'C12': ' Pollers run on real, single-stepped threads (their local state '
+           'survives between polls); further events: reset (fe.api.cmd_reset, '
+           'a NOW request when active, refused without effect otherwise) and '
+           'submissions failing in step 2 (must leave no trace).',
+    'C15': ' In the store part a later generation may be recorded after the '
+           'one in use (several persisted versions per element).',
+    'C17': ' Part api: the same questions through fe.api.database.search '
+           'with URL-style arguments, asked again after more matching '
+           'entries arrived under old run IDs.',
+    'C18': ' Part api: fe.api.schedule.succeeded / failed with ISO-string '
+           'bounds (also exactly equal to completion times) against the '
+           'brute-force window.',
+    'C20': ' Part accepted: candidate moments, well-formed or not, go '
+           'through the real compliant.rule_10 as the events() of a package '
+           'on disk; whatever it accepts must be computable by _delay.',
+}
+
 NOT_YET = 'check not built yet in this session (planned, see DESIGN.md section 4)'
 
 
@@ -422,7 +465,7 @@ def main():
                 'engine': eng,
                 'level_claimed': {
                     'category': cat,
-                    'text': text,
+                    'text': text + EXTRA.get(pid, ''),
                     'design_ref': f'DESIGN.md section 4, {pid}',
                 },
                 'level_note': note,
